@@ -251,6 +251,23 @@ def sem(rows, n, v0):
         stop = rows[i + 1][1] if i + 1 < len(rows) else n
         out += [(S + g + k, v0 + o + k) for k in range(stop - o)]
     return out
+bad = 0
+# a long-lived reader: read a file, then a range that probes file names which do not exist (yet), then the first file again
+if files:
+    rr = drf.DigitalRFReader(top)
+    a0, a1 = min(s_ for s_, _ in sem(r1, n1, 0)) - S, max(s_ for s_, _ in sem(r1, n1, 0)) - S
+    def rd(q0, q1):
+        return [(int(k), [int(x) for x in np.asarray(v).ravel()]) for k, v in rr.read(S + q0, S + q1, 'ch').items()]
+    try:
+        first = rd(a0, a1)
+        rd(a1 + 3 * SPF, a1 + 5 * SPF)        # only periods whose files do not exist (yet): every candidate file fails to open
+        again = rd(a0, a1)
+        if again == first:
+            rd(a0, a1 + 5 * SPF)               # through the existing files into the missing ones
+            again = rd(a0, a1)
+        if again != first: print('a long-lived reader returns', again[:2], 'for a range it returned', first[:2], 'for before'); bad = 1
+    except Exception as e:
+        print('long-lived reader: %%s: %%s' %% (type(e).__name__, e)); bad = 1
 truth = []
 if kw.get('have1', True): truth += sem(r1, n1, 0)
 elif files: os.remove(files[0])
@@ -264,7 +281,6 @@ def blocks(pairs):
         else: out.append((s_, [v]))
     return out
 r = drf.DigitalRFReader(top)
-bad = 0
 def check(q0, q1):
     global bad
     want = blocks([(s_, v) for s_, v in truth if S + q0 <= s_ <= S + q1])
@@ -281,9 +297,17 @@ if 'b' in kw and 'c' in kw:
     flat = lambda bl: [(k + i, x) for k, v in bl for i, x in enumerate(v)]
     if flat(whole) != flat(left) + flat(right): print('split at', kw['b'], 'changes the result'); bad = 1
 else:
-    check(kw['s0'], kw['s1'])
-    for q in sorted(set(s_ - S for s_, _ in truth)): check(q, q)
+    if 's0' in kw: check(kw['s0'], kw['s1'])
+    for q in sorted(set(s_ - S for s_, _ in truth))[:40]: check(q, q)
+# bounds == first / last sample any read can return
+if truth:
+    try:
+        b = drf.DigitalRFReader(top).get_bounds('ch')
+        if tuple(int(x) for x in b) != (min(s_ for s_, _ in truth), max(s_ for s_, _ in truth)):
+            print('get_bounds ->', tuple(int(x) - S for x in b), 'expected', (min(s_ for s_, _ in truth) - S, max(s_ for s_, _ in truth) - S)); bad = 1
+    except Exception as e:
+        print('get_bounds raised %%s: %%s' %% (type(e).__name__, e)); bad = 1
 shutil.rmtree(top)
 sys.exit(1 if bad else 0)
 '''
-READ_REPLAYS = {k: (lambda kw: REPLAY_READ % (kw,)) for k in ('_read_lengths', '_read_slices', '_split_invariance', '_two_files')}
+READ_REPLAYS = {k: (lambda kw: REPLAY_READ % (kw,)) for k in ('_read_lengths', '_read_slices', '_split_invariance', '_two_files', '_first_last', '_cache_sequence')}
